@@ -1768,9 +1768,19 @@ class Interp:
                 # loop entry?
                 info = cfg_info(fr.body)
                 if fr.block in info["loops"] and (not st.loop_ctx or st.loop_ctx[-1] != (fr.fid, fr.block)):
-                    exits = self.handle_loop(st, fr, info)
-                    work.extend(exits)
-                    break
+                    un = self.opts.get("unroll")
+                    if un:
+                        # comparison runs over finite-state loops: plain unrolling (exact), bounded
+                        k = ("unroll", fr.fid, fr.block)
+                        n = st.notes.get(k, 0) + 1
+                        st.notes[k] = n
+                        if n > un:
+                            self.sink.events.append(("unroll_bound", fr.body["path"], fr.block))
+                            break
+                    else:
+                        exits = self.handle_loop(st, fr, info)
+                        work.extend(exits)
+                        break
                 succ = self.exec_block(st, fr)
                 if not succ:
                     break
